@@ -113,13 +113,27 @@ class Built:
     pass
 
 
+_TABLES = {}
+
+
+def _table(autoinc):
+    import sqlalchemy as sa
+
+    if autoinc not in _TABLES:
+        _TABLES[autoinc] = sa.Table("t", sa.MetaData(), sa.Column("id", sa.Integer, primary_key=True, autoincrement=autoinc), sa.Column("a", sa.Integer),
+                                    sa.Column("b", sa.String(50)), sa.Column("c", sa.Integer))
+    return _TABLES[autoinc]
+
+
 def build(prog, s, caps, embed=False, pinned=False, ctx=None):
     """returns Built(stmt, params, exp_tags, exp_lists, features)"""
     import sqlalchemy as sa
     from sqlalchemy import Integer, String, and_, bindparam, case, delete, exists, func, insert, literal_column, not_, or_, select, tuple_, update
 
-    md = sa.MetaData()
-    t = sa.Table("t", md, sa.Column("id", Integer, primary_key=True, autoincrement=False), sa.Column("a", Integer), sa.Column("b", String(50)), sa.Column("c", Integer))
+    # one immutable Table per process: a Table's cache key is its identity, so the second execution of a program
+    # (value set B) can only hit the engine's compiled cache if both statements are built on the same Table object
+    t = _table(False)
+    md = t.metadata
     u = t.alias("u")
     binds = prog["binds"]
     inl = prog.get("inl", [])
@@ -218,6 +232,14 @@ def build(prog, s, caps, embed=False, pinned=False, ctx=None):
         l = l % len(inl)
         spec = inl[l]
         n = spec["na"] if s == 0 else spec["nb"]
+        if n == 0 and spec["t"] == "tup":
+            if spec.get("le") and not pinned:
+                # known finding C05/empty-tuple-in-literal-values-prefix: 'IN (VALUES SELECT ...)' is a syntax error on SQLite
+                if ctx is not None and not embed:
+                    ctx.exclude("empty tuple IN list with literal_execute (known finding C05/empty-tuple-in-literal-values-prefix)")
+                n = 1
+            else:
+                out.features.add("empty-tuple-in")
         vals = [lval(spec["t"], l, i, s) for i in range(n)]
         out.exp_lists[l] = vals
         if n:
@@ -738,7 +760,9 @@ def check_live(case, ctx):
                         feats |= b.features
                         nontriv = nontriv or _nontrivial(b)
                         state["tags"] = dict(b.exp_tags)
-                        if ps == "literal" and (off_wo_limit or (prog["shape"] != "select" and prog.get("ret"))):
+                        if ps == "literal" and (off_wo_limit or (prog["shape"] != "select" and prog.get("ret")) or "empty-tuple-in" in b.features):
+                            # literal_binds cannot express these (known findings C05/sqlite-offset-no-limit, C05/returning-ignores-literal-binds,
+                            # C05/empty-tuple-in-literal-values-prefix): no literal run for this set
                             outs.append(None)
                             continue
                         if ps == "literal":
@@ -791,8 +815,7 @@ def build_many(prog, s, caps, autoinc=True, ctx=None):
     import sqlalchemy as sa
     from sqlalchemy import Integer, String, bindparam, func, insert, literal_column
 
-    md = sa.MetaData()
-    t = sa.Table("t", md, sa.Column("id", Integer, primary_key=True, autoincrement=autoinc), sa.Column("a", Integer), sa.Column("b", String(50)), sa.Column("c", Integer))
+    t = _table(autoinc)
     out = Built()
     out.table = t
     modes = {c: prog["cols"][i] % 4 for i, c in enumerate(COLS)}
